@@ -122,12 +122,11 @@ class MPRZGate(
 
         for i in range(self.num_params):
             x1, x2 = get_indices(i, self.target_qubit, self.num_qudits)
-            # Optimize each RZ independently from indices
-            # Taken from QFACTOR repo
-            a = np.angle(env_matrix[x1, x1])
-            b = np.angle(env_matrix[x2, x2])
-            # print(thetas)
-            thetas[i] = a - b
+            # Optimize each RZ independently from indices: the trace
+            # contains a * exp(-i * theta / 2) + b * exp(i * theta / 2)
+            a = env_matrix[x1, x1]
+            b = env_matrix[x2, x2]
+            thetas[i] = float(2 * np.angle(a + np.conj(b)))
 
         return thetas
 
